@@ -1,7 +1,7 @@
 (* C15 — Static file serving stays inside its root and serves exact bytes.
    Only statements; each closed by `exact` of a lemma proved in Proofs/ (or vm_compute for examples). *)
 From AV Require Import Lib.Base Generated.StaticGen Model.Static Model.StaticSpec
-  Proofs.StaticRange Proofs.StaticResponse Proofs.StaticConfine.
+  Proofs.StaticRange Proofs.StaticResponse Proofs.StaticPaths Proofs.StaticConfine.
 Open Scope Z_scope.
 
 (* ------------------------------------------------------------------ range arithmetic *)
@@ -119,64 +119,72 @@ Print Assumptions C15_response_range_exact.
 
 (* ------------------------------------------------------------------ confinement *)
 
-(* FULL STATEMENT (sandbox mode, i.e. symlink following NOT enabled): for any tree with symlinks and any
-   filename text, what is served is a regular file stored physically below the configured root:
+(* FULL STATEMENT, proved for the repaired code (fixes 706b3e0 + 6ac5763).  Sandbox mode (symlink following
+   NOT enabled): for ANY tree with symlinks (loops, dangling and self-referential links included), ANY filename
+   text (dot segments, backslashes, repeated slashes, absolute forms, NULs, whatever the URL layer decodes to)
+   and ANY Accept-Encoding, what is served -- the file itself or its pre-compressed .br/.gz sibling -- is a
+   regular file stored physically below the configured root: p is below the root, no symbolic link lies on p
+   (so, by C15_physical_open, opening p reads the node stored AT p), and that node is the file served.
+   Hypotheses: f is a tree (entries sit in directories) and the configured root is a directory at its
+   physical location -- what StaticResource.__init__ establishes with resolve(strict=True) + is_dir(). *)
+Theorem C15_confined : forall f root show accept fn p enc c,
+  wf_fs f -> Phys f root -> kstat f root = KOk root NDir ->
+  handle f root false show accept fn = SFile p enc c ->
+  path_prefix root p = true /\ Phys f p /\ lookup f p = Some (NFile c).
+Proof. exact handle_confined. Qed.
+Print Assumptions C15_confined.
 
-     forall f root show accept fn p enc c,
-       kstat f root = KOk root NDir ->
-       handle f root false show accept fn = SFile p enc c ->
-       path_prefix root p = true /\ Phys f p /\ lookup f p = Some (NFile c).
+(* the same through the route's own prefix matching, for ANY request path *)
+Theorem C15_confined_route : forall f prefix root show accept path_safe p enc c,
+  wf_fs f -> Phys f root -> kstat f root = KOk root NDir ->
+  serve_path f prefix root false show accept path_safe = SFile p enc c ->
+  path_prefix root p = true /\ Phys f p /\ lookup f p = Some (NFile c).
+Proof. exact serve_path_confined. Qed.
+Print Assumptions C15_confined_route.
 
-   History.  The unrepaired code was refuted by "a/../l" (a<->b a symlink loop, l a link leaving the root):
-   Path.resolve() gives up at the loop and only normalises the rest lexically.  Fix 706b3e0 added
-   `if file_path.resolve() != file_path: raise ValueError`; that witness is now answered 404
-   (C15_loop_escape_repaired, corpus/C15/loop-escape-*.json must pass).
+(* sandbox mode: a listing is that of a physical directory below the root, with that directory's own entries *)
+Theorem C15_listing_confined : forall f prefix root show accept path_safe d names,
+  wf_fs f -> Phys f root ->
+  serve_path f prefix root false show accept path_safe = SListing d names ->
+  path_prefix root d = true /\ Phys f d /\ node_at f d = Some NDir /\ names = children f d.
+Proof. exact serve_path_listing_physical. Qed.
+Print Assumptions C15_listing_confined.
 
-   The faithful model of the REPAIRED code still refutes the full statement (implementation reproduces it:
-   open known finding C15-sibling-escape-after-loop, corpus/C15/sibling-escape-after-loop.json): a path can be
-   a fixed point of resolve() and still contain a link, when the stat() that resolve() uses to detect the loop
-   fails with ENOENT instead of ELOOP; the pre-compressed sibling is then lstat'ed THROUGH that link. *)
-Theorem C15_confined_refuted :
-  exists f root accept fn p enc c q,
-    kstat f root = KOk root NDir /\
-    handle f root false false accept fn = SFile p (Some enc) c /\
-    klstat f p = KOk q (NFile c) /\          (* the bytes served are those stored at q ... *)
-    path_prefix root q = false.              (* ... which is outside the root *)
-Proof.
-  exists sib_fs, [[114%N]], gzip_str, sib_fn, [[114%N]; [100%N]; [110%N; 46%N; 103%N; 122%N]], gzip_str, [83%N],
-         [[111%N]; [110%N; 46%N; 103%N; 122%N]].
-  destruct confined_refuted as (A & B & C & D & _). auto.
-Qed.
-Print Assumptions C15_confined_refuted.
+(* the loop of fix 6ac5763 is what makes the difference: it establishes Phys for any probe/parts *)
+Theorem C15_component_check_physical : forall f parts probe,
+  wf_fs f -> Phys f probe -> forallb normal_seg parts = true ->
+  no_link_below f probe parts = true -> Phys f (probe ++ parts).
+Proof. exact (fun f parts probe Hwf => no_link_phys f Hwf parts probe). Qed.
+Print Assumptions C15_component_check_physical.
 
-(* the witness of the repaired defect: resolve() still returns the link /r/l, but its second resolve() differs
-   and the route now answers 404, with and without show_index *)
+(* the two escapes that were found by this property and repaired are regression theorems now:
+   (1) "a/../l" with a<->b a symlink loop and l a link leaving the root (706b3e0): resolve() still returns the
+       link /r/l, the route answers 404 with and without show_index *)
 Theorem C15_loop_escape_repaired :
+  wf_fsb loop_fs = true /\
   kstat loop_fs [[114%N]] = KOk [[114%N]] NDir /\
   resolve loop_fs [[114%N]; [97%N]; [46%N; 46%N]; [108%N]] = RP_ok [[114%N]; [108%N]] /\
   is_link (lookup loop_fs [[114%N]; [108%N]]) = true /\
-  resolve loop_fs [[114%N]; [108%N]] = RP_ok [[111%N]] /\
   handle loop_fs [[114%N]] false false [] loop_fn = S404 /\
   handle loop_fs [[114%N]] false true [] loop_fn = S404.
 Proof. exact loop_escape_repaired. Qed.
 Print Assumptions C15_loop_escape_repaired.
 
-(* What is proved in place of the full statement, for ANY tree, ANY filename text (dot segments, backslashes,
-   repeated slashes, NULs, whatever the URL layer decodes to), ANY Accept-Encoding, also for the .br/.gz
-   sibling.  (1) with the fixed-point check it is enough that the SECOND realpath run -- on the path the
-   first resolve() returned -- did not give up at a loop, whatever happened in the first: *)
-Theorem C15_confined_partial : forall f root show accept fn p enc c,
-  kstat f root = KOk root NDir ->
-  (forall p0, resolve f (root ++ snd (parse_posix fn)) = RP_ok p0 -> no_loop_met f p0) ->
-  handle f root false show accept fn = SFile p enc c ->
-  path_prefix root p = true /\ Phys f p /\ lookup f p = Some (NFile c).
-Proof. exact handle_confined_fixedpoint. Qed.
-Print Assumptions C15_confined_partial.
+(* (2) "d/n" with d a link to an outside directory and n a link that leads realpath back to itself after a
+       missing component (6ac5763): /r/d/n is a fixed point of resolve() and still has the link d on it, the
+       sibling /r/d/n.gz lives outside; the route answers 404 with and without Accept-Encoding: gzip *)
+Theorem C15_sibling_escape_repaired :
+  wf_fsb sib_fs = true /\
+  kstat sib_fs [[114%N]] = KOk [[114%N]] NDir /\
+  resolve sib_fs [[114%N]; [100%N]; [110%N]] = RP_ok [[114%N]; [100%N]; [110%N]] /\
+  is_link (lookup sib_fs [[114%N]; [100%N]]) = true /\
+  klstat sib_fs [[114%N]; [100%N]; [110%N; 46%N; 103%N; 122%N]] = KOk [[111%N]; [110%N; 46%N; 103%N; 122%N]] (NFile [83%N]) /\
+  handle sib_fs [[114%N]] false false gzip_str sib_fn = S404 /\
+  handle sib_fs [[114%N]] false false [] sib_fn = S404.
+Proof. exact sibling_escape_repaired. Qed.
+Print Assumptions C15_sibling_escape_repaired.
 
-(* (2) the hypothesis of the unrepaired code (no loop met while resolving root/filename) also still suffices.
-   Missing for the full statement: a check in _resolve_path_to_response that no component of file_path below
-   the root is a symbolic link (then Phys holds by definition), or a proof that a kernel walk that succeeds
-   never meets a link realpath has in progress (which would settle the non-sibling case only). *)
+(* without any assumption on the shape of the tree, under the hypothesis that realpath met no loop *)
 Theorem C15_confined_noloop_partial : forall f root show accept fn p enc c,
   kstat f root = KOk root NDir ->
   no_loop_met f (root ++ snd (parse_posix fn)) ->
@@ -185,17 +193,7 @@ Theorem C15_confined_noloop_partial : forall f root show accept fn p enc c,
 Proof. exact handle_confined_partial. Qed.
 Print Assumptions C15_confined_noloop_partial.
 
-(* the same through the route's own prefix matching, for ANY request path *)
-Theorem C15_confined_route_partial : forall f prefix root show accept path_safe p enc c,
-  kstat f root = KOk root NDir ->
-  (forall fn p0, static_resolve prefix path_safe = Some fn ->
-     resolve f (root ++ snd (parse_posix fn)) = RP_ok p0 -> no_loop_met f p0) ->
-  serve_path f prefix root false show accept path_safe = SFile p enc c ->
-  path_prefix root p = true /\ Phys f p /\ lookup f p = Some (NFile c).
-Proof. exact serve_path_confined_fixedpoint. Qed.
-Print Assumptions C15_confined_route_partial.
-
-(* holds unconditionally (loops included): the path handed to the file response is LEXICALLY below the root *)
+(* holds unconditionally: the path handed to the file response is LEXICALLY below the root *)
 Theorem C15_lexically_confined : forall f root show accept fn p enc c,
   kstat f root = KOk root NDir ->
   handle f root false show accept fn = SFile p enc c ->
@@ -213,13 +211,19 @@ Theorem C15_resolve_physical_partial : forall f p q, no_loop_met f p -> resolve 
 Proof. exact resolve_phys. Qed.
 Print Assumptions C15_resolve_physical_partial.
 
-(* ... but Path.resolve() as a whole does not have that property: *)
+(* ... but Path.resolve() as a whole does not have that property (a fact about CPython, which is why the
+   handler must check the components itself): *)
 Theorem C15_resolve_physical_refuted : exists f p q, resolve f p = RP_ok q /\ is_link (lookup f q) = true.
 Proof.
   exists loop_fs, [[114%N]; [97%N]; [46%N; 46%N]; [108%N]], [[114%N]; [108%N]].
-  destruct loop_escape_repaired as (_ & A & B & _). auto.
+  destruct loop_escape_repaired as (_ & _ & A & B & _). auto.
 Qed.
 Print Assumptions C15_resolve_physical_refuted.
+
+(* every segment of a path Path.resolve() returns is an ordinary name (not "", ".", "..", no NUL) *)
+Theorem C15_resolve_normal : forall f p q, resolve f p = RP_ok q -> forallb normal_seg q = true.
+Proof. exact resolve_normal. Qed.
+Print Assumptions C15_resolve_normal.
 
 (* the kernel's stat/lstat/open of a physical path ends at that very location: what is read is the node
    stored AT p, never something a link redirects to. *)
@@ -244,14 +248,6 @@ Theorem C15_listing_only_if_enabled : forall f prefix root follow show accept pa
   show = true /\ path_prefix root d = true.
 Proof. exact serve_path_listing. Qed.
 Print Assumptions C15_listing_only_if_enabled.
-
-(* sandbox mode, second realpath run without a loop: the listing is that of the physical directory d below the root *)
-Theorem C15_listing_physical_partial : forall f root show accept fn d names,
-  (forall p0, resolve f (root ++ snd (parse_posix fn)) = RP_ok p0 -> no_loop_met f p0) ->
-  handle f root false show accept fn = SListing d names ->
-  Phys f d /\ node_at f d = Some NDir /\ names = children f d.
-Proof. exact handle_listing_physical. Qed.
-Print Assumptions C15_listing_physical_partial.
 
 Theorem C15_absolute_filename_refused : forall f root follow show accept fn,
   is_abs fn = true -> handle f root follow show accept fn = S404.
@@ -296,7 +292,7 @@ Example C15_example_no_loop : no_loop_met ex_fs ([[114]] ++ snd (parse_posix [10
 Proof. exact ex_no_loop. Qed.
 Print Assumptions C15_example_no_loop.
 
-Example C15_example_no_loop_fixedpoint :
-  forall p0, resolve ex_fs ([[114]] ++ snd (parse_posix [102])) = RP_ok p0 -> no_loop_met ex_fs p0.
-Proof. exact ex_no_loop_fixedpoint. Qed.
-Print Assumptions C15_example_no_loop_fixedpoint.
+(* the hypotheses of C15_confined hold for this tree and root *)
+Example C15_example_hypotheses : wf_fs ex_fs /\ Phys ex_fs [[114]] /\ kstat ex_fs [[114]] = KOk [[114]] NDir.
+Proof. exact ex_hyps. Qed.
+Print Assumptions C15_example_hypotheses.
